@@ -543,5 +543,32 @@ def cd_index(prog: Program) -> RuleResult:
     return r
 
 
+def cd_identity(prog: Program) -> RuleResult:
+    """'A class of the diagram' is that class object.  Two classes can share a name (catalogue.Item and __main__.Item; a base class and the
+    subclass that shadows it): looking a class up by its name makes a field typed with the *other* Item an association edge, and a diagram
+    class whose base is its outside namesake its own ancestor.  The lookup answers for the object it was asked about, or raises."""
+    r = RuleResult("CD-IDENTITY", "a class is looked up in the diagram by the class object, never by its name", floor=1)
+    cd = prog.cls("class_diagram.ClassDiagram")
+    n = 0
+    for nm in ("get_wrapped_class", "add_node"):
+        f = cd.methods.get(nm)
+        if f is None:
+            continue
+        n += 1
+        by_name = [x for x in walk_local(f.node) if isinstance(x, ast.Compare) and any(isinstance(y, ast.Attribute) and y.attr in ("__name__", "__qualname__") for y in ast.walk(x))]
+        by_name += [x for x in walk_local(f.node) if isinstance(x, ast.Compare) and any(isinstance(y, ast.Call) and isinstance(y.func, ast.Name) and y.func.id in ("str", "repr", "getattr") and
+                    any(isinstance(z, ast.Constant) and z.value in ("__name__", "__qualname__") for z in ast.walk(y)) for y in ast.walk(x))]
+        # names bound from getattr(x, "__name__") / x.__name__ and compared later
+        named = {t.id for x in walk_local(f.node) if isinstance(x, ast.Assign) and len(x.targets) == 1 and isinstance(x.targets[0], ast.Name) for t in x.targets
+                 if any((isinstance(y, ast.Attribute) and y.attr in ("__name__", "__qualname__")) or (isinstance(y, ast.Constant) and y.value in ("__name__", "__qualname__")) for y in ast.walk(x.value))}
+        by_name += [x for x in walk_local(f.node) if isinstance(x, ast.Compare) and any(isinstance(y, ast.Name) and y.id in named for y in ast.walk(x))]
+        r.check(not by_name, f"{f.short}#by-the-class-object", site(f, by_name[0]) if by_name else site(f), src(by_name[0])[:80] if by_name else "", "classes are matched as objects (dictionary lookup, identity)",
+                f"`{src(by_name[0])[:60] if by_name else ''}` matches classes by name: a class outside the diagram that shares its name with a diagram class is answered with that class - fields typed "
+                "with it become association edges, a diagram class that extends it becomes its own ancestor")
+    if n < 1:
+        raise AnalysisError("CD-IDENTITY: ClassDiagram.get_wrapped_class vanished")
+    return r
+
+
 def run(prog: Program, tier: str) -> List[RuleResult]:
-    return [guard(lambda: wf_table(prog)), guard(lambda: cd_edges(prog)), guard(lambda: cd_readonly(prog)), guard(lambda: cd_memo(prog)), guard(lambda: cd_multi(prog)), guard(lambda: _shared_default(prog)), guard(lambda: wf_resolved(prog)), guard(lambda: cd_index(prog))]
+    return [guard(lambda: wf_table(prog)), guard(lambda: cd_edges(prog)), guard(lambda: cd_readonly(prog)), guard(lambda: cd_memo(prog)), guard(lambda: cd_multi(prog)), guard(lambda: _shared_default(prog)), guard(lambda: wf_resolved(prog)), guard(lambda: cd_index(prog)), guard(lambda: cd_identity(prog))]
